@@ -1,6 +1,7 @@
 // Kani unit `induction` (C02): algebra on loop-invariant expressions and derived induction
 // variables, guard operators, in crates/samlang-optimization/src/loop_induction_analysis.rs.
 use super::*;
+use samlang_ast::mir::INT_32_TYPE;
 include!("/verif/kx/harness/common/wasm_sem.rs");
 
 const LETTERS: [char; 3] = ['a', 'b', 'c'];
@@ -70,31 +71,75 @@ fn merge_invariant_multiplication_same_value() {
   }
 }
 
-#[kani::proof]
-#[kani::unwind(17)]
-fn merge_constant_operation_into_derived_same_value() {
-  let d = any_div();
-  let is_plus: bool = kani::any();
-  let c = any_pli();
-  let vars: [i32; 3] = kani::any();
-  if let Some(r) = merge_constant_operation_into_derived_induction_variable(&d, is_plus, &c) {
-    let expected = if is_plus {
-      eval_div(&d, &vars).wrapping_add(eval(&c, &vars))
-    } else {
-      eval_div(&d, &vars).wrapping_mul(eval(&c, &vars))
-    };
-    assert!(r.base_name == d.base_name);
-    assert!(eval_div(&r, &vars) == expected);
+fn same_pli(a: &PotentialLoopInvariantExpression, b: &PotentialLoopInvariantExpression) -> bool {
+  match (a, b) {
+    (PotentialLoopInvariantExpression::Int(x), PotentialLoopInvariantExpression::Int(y)) => x == y,
+    (PotentialLoopInvariantExpression::Var(x), PotentialLoopInvariantExpression::Var(y)) => x.name == y.name,
+    _ => false,
   }
 }
 
+/// `d + c`: only the immediate changes, and it changes by c (additions only: checked by value)
 #[kani::proof]
 #[kani::unwind(17)]
-fn merge_variable_addition_into_derived_same_value() {
+fn merge_constant_addition_into_derived_same_value() {
+  let d = any_div();
+  let c = any_pli();
+  let vars: [i32; 3] = kani::any();
+  if let Some(r) = merge_constant_operation_into_derived_induction_variable(&d, true, &c) {
+    assert!(r.base_name == d.base_name);
+    assert!(same_pli(&r.multiplier, &d.multiplier));
+    assert!(eval(&r.immediate, &vars) == eval(&d.immediate, &vars).wrapping_add(eval(&c, &vars)));
+  }
+}
+
+/// `d * c`: the result has the shape {b, m*c, i*c}.  That b*(m*c) + i*c == (b*m + i)*c modulo 2^32
+/// is Verus lemma algebra::lemma_wrapping_distribute (32-bit multiplier identity, out of SAT reach).
+#[kani::proof]
+#[kani::unwind(17)]
+fn merge_constant_multiplication_into_derived_shape() {
+  let d = any_div();
+  let c = any_pli();
+  if let Some(r) = merge_constant_operation_into_derived_induction_variable(&d, false, &c) {
+    assert!(r.base_name == d.base_name);
+    let vars: [i32; 3] = kani::any();
+    // multiplier and immediate are both scaled by c
+    match (&d.multiplier, &d.immediate, &c) {
+      (PotentialLoopInvariantExpression::Int(m), PotentialLoopInvariantExpression::Int(i), PotentialLoopInvariantExpression::Int(cv)) => {
+        assert!(same_pli(&r.multiplier, &PotentialLoopInvariantExpression::Int(m.wrapping_mul(*cv))));
+        assert!(same_pli(&r.immediate, &PotentialLoopInvariantExpression::Int(i.wrapping_mul(*cv))));
+      }
+      (_, _, PotentialLoopInvariantExpression::Int(cv)) => {
+        // non-constant parts can only be scaled by 1
+        assert!(*cv == 1);
+        assert!(same_pli(&r.multiplier, &d.multiplier) && same_pli(&r.immediate, &d.immediate));
+      }
+      (_, _, PotentialLoopInvariantExpression::Var(_)) => {
+        // scaling by a variable: only {b, 1, 1} -> {b, v, v}
+        assert!(same_pli(&d.multiplier, &PotentialLoopInvariantExpression::Int(1)));
+        assert!(same_pli(&d.immediate, &PotentialLoopInvariantExpression::Int(1)));
+        assert!(same_pli(&r.multiplier, &c) && same_pli(&r.immediate, &c));
+      }
+    }
+    let _ = vars;
+  }
+}
+
+/// `d1 + d2` over the same base: multipliers and immediates are added component-wise (by value:
+/// additions only).  That b*(m1+m2) + (i1+i2) == (b*m1+i1) + (b*m2+i2) modulo 2^32 is Verus lemma
+/// algebra::lemma_wrapping_add_derived.
+#[kani::proof]
+#[kani::unwind(17)]
+fn merge_variable_addition_into_derived_componentwise() {
   let (d1, d2) = (any_div(), any_div());
   let vars: [i32; 3] = kani::any();
-  if let Some(r) = merge_variable_addition_into_derived_induction_variable(&d1, &d2) {
-    assert!(eval_div(&r, &vars) == eval_div(&d1, &vars).wrapping_add(eval_div(&d2, &vars)));
+  match merge_variable_addition_into_derived_induction_variable(&d1, &d2) {
+    Some(r) => {
+      assert!(d1.base_name == d2.base_name && r.base_name == d1.base_name);
+      assert!(eval(&r.multiplier, &vars) == eval(&d1.multiplier, &vars).wrapping_add(eval(&d2.multiplier, &vars)));
+      assert!(eval(&r.immediate, &vars) == eval(&d1.immediate, &vars).wrapping_add(eval(&d2.immediate, &vars)));
+    }
+    None => {}
   }
 }
 
@@ -141,6 +186,8 @@ fn get_guard_operator_is_the_continue_condition() {
       let breaks = if inv { !cc } else { cc };
       assert!(guard_holds(g, a, b) == !breaks);
     }
-    None => assert!(!matches!(op, BinaryOperator::LT | BinaryOperator::LE | BinaryOperator::GT | BinaryOperator::GE)),
+    None => {
+      assert!(!matches!(op, BinaryOperator::LT | BinaryOperator::LE | BinaryOperator::GT | BinaryOperator::GE));
+    }
   }
 }
